@@ -191,6 +191,11 @@ func Flush() {
 	if path == "" {
 		return
 	}
+	for _, a := range os.Args {
+		if len(a) >= 16 && a[:16] == "-test.fuzzworker" {
+			return // native fuzz worker processes must not overwrite the coordinator's file
+		}
+	}
 	regMu.Lock()
 	defer regMu.Unlock()
 	all := map[string]out{}
